@@ -29,6 +29,8 @@ ASSUMPTIONS = ["the Sec-WebSocket-Key is only required to be present (its being 
 M = "tornado.websocket"
 GUID = b"258EAFA5-E914-47DA-95CA-C5AB0DC85B11"
 KEY = b"dGhlIHNhbXBsZSBub25jZQ=="
+KEY_NONCANONICAL = b"AAECAwQFBgcICQoLDA0OD1=="      # decodes to 16 bytes, but is not the spelling an encoder produces (non-zero padding bits): a server may refuse it; if it answers 101 the
+#                                                     accept value is over the text the client sent
 
 
 def accept_for(key):
@@ -98,7 +100,7 @@ def u_server_headers(c):
     core.PATH_CAP = max(core.PATH_CAP, 12000)       # a finite product of header values (3000 requests), each a few milliseconds
     upgrade = c.choose("Upgrade", ["websocket", "WebSocket", "h2c", None, ""])
     connection = c.choose("Connection", ["Upgrade", "keep-alive, Upgrade", "upgrade", "keep-alive", None])
-    key = c.choose("Sec-WebSocket-Key", [KEY, None, b""])
+    key = c.choose("Sec-WebSocket-Key", [KEY, None, b"", KEY_NONCANONICAL])
     version = c.choose("Sec-WebSocket-Version", [b"13", b"8", b"12", None, b"14"])
     host = c.choose("Host", [b"example.com", b"example.com:8080"])
     origin = c.choose("Origin", ORIGINS[:8])
@@ -109,7 +111,10 @@ def u_server_headers(c):
     c.cover("handshake/%s" % ("101" if want else "refused"))
     c.values = {"request": req.decode("latin1"), "status": status.decode("latin1"), "headers": hdrs}
     got101 = status.startswith(b"HTTP/1.1 101")
-    c.oblige("post/101-exactly-for-a-valid-permitted-upgrade", got101 == want)
+    if key == KEY_NONCANONICAL:
+        c.oblige("post/101-exactly-for-a-valid-permitted-upgrade", (not got101) or want)
+    else:
+        c.oblige("post/101-exactly-for-a-valid-permitted-upgrade", got101 == want)
     if got101:
         c.oblige("post/the-accept-value-is-the-RFC-6455-digest-of-the-key", key is not None and hdrs.get("sec-websocket-accept") == [accept_for(key).decode()])
         c.oblige("post/upgrade-and-connection-headers-are-sent-and-nothing-was-negotiated-that-was-not-asked", [v.lower() for v in hdrs.get("upgrade", [])] == ["websocket"]
@@ -194,7 +199,9 @@ def u_server_negotiation(c):
 
 RESPONSES = [None, "permessage-deflate", "permessage-deflate; client_no_context_takeover", "permessage-deflate; server_no_context_takeover", "permessage-deflate; client_max_window_bits=10",
              "permessage-deflate; server_max_window_bits=11", "permessage-deflate; client_no_context_takeover; server_no_context_takeover; client_max_window_bits=9; server_max_window_bits=9",
-             "permessage-deflate; made_up=1", "x-webkit-deflate-frame"]
+             "permessage-deflate; made_up=1", "x-webkit-deflate-frame",
+             # several entries: every one of them must have been offered, wherever it stands in the list
+             "permessage-deflate, x-unoffered-ext", "x-unoffered-ext, permessage-deflate", "permessage-deflate; client_max_window_bits=10, x-unoffered-ext; a=1"]
 
 
 @unit("C17", "client.response", [(M, "WebSocketProtocol13._process_server_headers"), (M, "WebSocketProtocol13._parse_extensions_header"), (M, "WebSocketProtocol13._create_compressors")])
@@ -218,9 +225,10 @@ def u_client(c):
         return H.run(main)
     out, proto = body()
     c.only_raises(out, (AssertionError, ValueError))
-    name, params = parse_ext(response) if response else (None, {})
+    entries = [parse_ext(e) for e in response.split(",")] if response else []
+    name, params = entries[0] if entries else (None, {})
     known = {"server_no_context_takeover", "client_no_context_takeover", "server_max_window_bits", "client_max_window_bits"}
-    acceptable = accept == "right" and (response is None or (name == "permessage-deflate" and offered and set(params) <= known))
+    acceptable = accept == "right" and all(nm == "permessage-deflate" and offered and set(pr) <= known for nm, pr in entries)
     c.cover("client/%s" % ("accepted" if acceptable else "rejected"))
     c.values = {"response": response, "raised": repr(out.exc) if out.raised else None}
     c.oblige("post/the-response-is-accepted-exactly-when-the-accept-value-matches-and-nothing-unoffered-or-unknown-is-negotiated", out.returned == acceptable)
